@@ -1011,7 +1011,9 @@ impl Formatter {
             Literal::Bytes(b) => {
                 self.writer.write("b\"");
                 for byte in b {
-                    if *byte >= 32 && *byte < 127 {
+                    if *byte == b'"' || *byte == b'\\' {
+                        self.writer.write(&format!("\\{}", *byte as char));
+                    } else if *byte >= 32 && *byte < 127 {
                         self.writer.write(&(*byte as char).to_string());
                     } else {
                         self.writer.write(&format!("\\x{:02x}", byte));
